@@ -1,6 +1,8 @@
 (* C02 -- route / RDNSS / DNSSL / PREF64 stanzas, the overlap loops, parsePlugins. *)
 From Coq Require Import Lia ZifyBool Btauto.
-From CR Require Import Model.Config Model.ConfigSpec Proofs.Config.
+From CR Require Import Model.Config.
+From CR Require Import Model.ConfigSpec.
+From CR Require Import Proofs.Config.
 Local Open Scope Z_scope.
 
 Lemma parse_preference_spec t : spec_res (parse_preference t) (pref_ok_b t) (pref_value t).
